@@ -3,7 +3,8 @@ import Rivaas.Spec.Contain
 /-
 Driver for C10. Case lines (see harness/c10/main.go):
 
-  <id> R <check> <compiled> <wire> <wrap> <global> <chain> => <result> <nf> <result>*
+  <id> R <check> <compiled> <obs> <wire> <wrap> <global> <chain> => <result> <nf> <result>*
+      obs  = app with observability on (c.Response is the size-tracking observability writer): read and ignored
       wire = the request went through a real net/http server: an escaped panic shows as a dropped
              connection (escaped value 9, trace only), so only `escaped.isSome` is compared there
       compiled = router.WithRouteCompilation (which serve path runs the chain): read and ignored by the model
@@ -14,8 +15,8 @@ Driver for C10. Case lines (see harness/c10/main.go):
       follow-ups: the same chain with every handler passing through; then the route [99: W] behind
       the first <global> handlers (router-global middleware; they have no behaviour there: return).
 
-  <id> T <waitH> <custom> <prog: n hact…> => <status> <body> <escaped> <releasedEarly> <hsteps> <follow>
-      hact = W | D | X | aC | aE | aT | sH | aR | P<v>
+  <id> T <waitH> <custom> <budget ms, 0 = 1h> <prog: n hact…> => <status> <body> <escaped> <releasedEarly> <hsteps> <follow>
+      hact = W | D | X | aC | aE | aT | sH | aR | hold | P<v>
 -/
 namespace Rivaas.DriverC10
 open Rivaas.Proto Rivaas.Chain
@@ -107,7 +108,7 @@ def silent (wrap : Bool) : List Prog :=
 
 def stepR (id : String) (inp obs : List String) : String :=
   let pIn : P (Bool × Bool × Bool × Nat × List (Nat × List Act)) := do
-    let check ← bool; let _compiled ← bool; let wire ← bool; let wrap ← bool; let g ← nat
+    let check ← bool; let _compiled ← bool; let _obs ← bool; let wire ← bool; let wrap ← bool; let g ← nat
     let ch ← list (do let h ← nat; let a ← pActs 8; pure (h, a))
     pure (check, wire, wrap, g, ch)
   let pOut : P (Res × List Res) := do let r ← pRes; let fs ← list pRes; pure (r, fs)
@@ -139,7 +140,7 @@ def pHAct : P HAct := do
   let t ← tok
   if t == "W" then pure .write else if t == "D" then pure .fireDl else if t == "X" then pure .firePc
   else if t == "aC" then pure .awaitCtx else if t == "aE" then pure .awaitE else if t == "aT" then pure .awaitT else if t == "sH" then pure .signalH
-  else if t == "aR" then pure .awaitRet
+  else if t == "aR" then pure .awaitRet else if t == "hold" then pure .hold
   else if t.startsWith "P" then
     match (t.drop 1).toString.toNat? with
     | some v => pure (.panic v)
@@ -161,7 +162,7 @@ def tStatus (c : Option Timeout.Chunk) : Nat :=
 open Rivaas.Timeout in
 def stepT (id : String) (inp obs : List String) : String :=
   let pIn : P (Bool × Bool × List HAct) := do
-    let w ← bool; let c ← bool; let p ← list pHAct; pure (w, c, p)
+    let w ← bool; let c ← bool; let _budget ← nat; let p ← list pHAct; pure (w, c, p)
   let pOut : P (Nat × List Nat × Option Nat × Bool × Nat × Nat) := do
     let st ← nat; let b ← list nat; let e ← opt nat; let re ← bool; let hs ← nat; let f ← nat
     pure (st, b, e, re, hs, f)
